@@ -5,6 +5,7 @@
 #include "strops.c"     /* strAlloc, strLength, strCopy: the real bodies */
 #include "vharness.h"
 #define V_STUB_BUG_DIAG
+#define V_STUB_MEMCHR
 #include "stubs.h"
 #define C_BUFFER_HARNESS_SUPPORT
 #define C_BUFFER_STO_REFUSING   /* stoAlloc(0) == NULL, absurd sizes refused with a diagnostic, as the real store.c */
@@ -18,7 +19,7 @@
 #if defined(V_N_PLAUSIBLE)
 # define V_SPLIT_N(n) ASSUME((n) < (1UL << 63))
 #elif defined(V_N_WRAPS)
-# define V_SPLIT_N(n) ASSUME((n) >= (1UL << 63))
+# define V_SPLIT_N(n) ASSUME((n) >= (1UL << 63)); VREACH()	/* hostile half: must be refused on every path, so the reachability marker sits BEFORE the call */
 #else
 # define V_SPLIT_N(n) ((void) 0)
 #endif
